@@ -455,7 +455,7 @@ class StmtMixin:
             pl, cont = self.pick_alt(st, pl, cont, node, lambda t: isinstance(t, TMap))
         if isinstance(cont.ty, TMap):
             idx = self.map_key(st, cont, idx, node)
-            new = self.map_set(cont, idx, v)
+            new = self.map_set(cont, idx, v, st)
             self.write_place(st, pl, new, node)
             return
         if isinstance(cont.ty, TSeq):
@@ -1064,6 +1064,16 @@ class StmtMixin:
         def elem(s, i):
             k = unbox(mty.k, snth(mty.k, keys0, i))
             s.fact(z3.Contains(keys0, sunit(mty.k, box(k))))       # the i-th key is a key
+            # consequences of the keys being pairwise distinct, stated at the index (the solvers do not
+            # derive them from the quantified distinctness): the i-th key does not occur before
+            # position i, and the prefix of length i+1 is the prefix of length i plus that key
+            inr = z3.And(i >= 0, i < z3.Length(keys0))
+            s.fact(z3.Implies(inr, z3.Not(z3.Contains(z3.Extract(keys0, z3.IntVal(0), i), sunit(mty.k, box(k))))))
+            s.fact(z3.Implies(inr, z3.Extract(keys0, z3.IntVal(0), i + 1) == z3.Concat(z3.Extract(keys0, z3.IntVal(0), i), sunit(mty.k, box(k)))))
+            # ... hence membership in the longer prefix = membership in the shorter one, or being that key
+            mx = z3.Const(self.fresh_sym('mx'), mty.k.sort())
+            s.fact(z3.Implies(inr, z3.ForAll([mx], z3.Contains(z3.Extract(keys0, z3.IntVal(0), i + 1), sunit(mty.k, mx)) ==
+                                             z3.Or(z3.Contains(z3.Extract(keys0, z3.IntVal(0), i), sunit(mty.k, mx)), mx == box(k)))))
             if what == 'keys':
                 return k
             m = getm(s)
@@ -1142,7 +1152,9 @@ class StmtMixin:
         out = []
         done, more = self.fork(st, i.t == src.length, None, 'for%s-done' % ordn)
         if done is not None:
-            done.env.pop(idx_name, None) if False else None
+            if getattr(src, 'keys0', None) is not None:
+                # all keys visited: the prefix of that length is the whole key sequence
+                done.fact(z3.Implies(i.t == z3.Length(src.keys0), z3.Extract(src.keys0, z3.IntVal(0), i.t) == src.keys0))
             out.extend(self.exec_block(done, s.orelse) if s.orelse else [done])
         if more is not None:
             more.assume(i.t < src.length)
@@ -1151,8 +1163,13 @@ class StmtMixin:
                 for e in self.exec_block(a, s.body):
                     if e.flow in ('normal', 'continue'):
                         e.flow = 'normal'
-                        for h in spec.hints:
-                            self.eval_contract_expr(e, h, None, self.pre_state, want_bool=False)
+                        saved_lo_ = getattr(self, 'cur_loop_ord', None)
+                        self.cur_loop_ord = ordn
+                        try:
+                            for h in spec.hints:
+                                self.eval_contract_expr(e, h, None, self.pre_state, want_bool=False)
+                        finally:
+                            self.cur_loop_ord = saved_lo_
                         e.env[idx_name] = SV(TInt, i.t + 1)
                         if src.unchanged is not None:
                             self.oblige(e, src.unchanged(e), 'safety', label + ':iterated-unchanged', node=s,
